@@ -142,6 +142,15 @@ package airgapped
 //@   assert@call TasksToMessages[C03.sign.expansion] msgs == loc(signingTasks)
 //@   assert@call createPartialSign[C03.sign.payload] msg == loc(s).Payload && dkgIdentifier == o.DKGIdentifier
 //@   loop 0 invariant o.DKGIdentifier == old(o.DKGIdentifier) && wfMachine(am)
+//@   loop 0 invariant[C03.sign.each] len(signs) == $i + 1 && (forall j int :: 0 <= j && j <= $i ==> signs[j].MessageID == $range[j].MessageID && content(signs[j].Sign) == partialSignOf(old(o.DKGIdentifier), content($range[j].Payload)))
+
+// (assumed: for one machine a partial signature is a function of the round and the message bytes - tbls.Sign under the
+// round's stored share; the body loads the keyring and calls kyber)
+//@ ghost func partialSignOf(round string, msg bytesvalue) bytesvalue
+//@ func (*Machine).createPartialSign
+//@   assumed
+//@   pure
+//@   ensures result1 == nil ==> content(result0) == partialSignOf(dkgIdentifier, content(msg)) && fresh(result0)
 
 //@ func (*Machine).loadBLSKeyring
 //@   safety C18
